@@ -1,0 +1,31 @@
+// +build linux,verif
+
+package rawfile
+
+import (
+	"syscall"
+
+	tcpip "github.com/brewlin/net-protocol/protocol"
+)
+
+// VerifWrite and VerifReadv, when set, replace the write/writev and readv
+// system calls so that a simulator can stand in for the file descriptor.
+// Returning ok=false falls through to the real system call.
+var (
+	VerifWrite func(fd int, b1, b2 []byte) (err *tcpip.Error, ok bool)
+	VerifReadv func(fd int, iovecs []syscall.Iovec) (n int, err *tcpip.Error, ok bool)
+)
+
+func verifWrite(fd int, b1, b2 []byte) (*tcpip.Error, bool) {
+	if h := VerifWrite; h != nil {
+		return h(fd, b1, b2)
+	}
+	return nil, false
+}
+
+func verifReadv(fd int, iovecs []syscall.Iovec) (int, *tcpip.Error, bool) {
+	if h := VerifReadv; h != nil {
+		return h(fd, iovecs)
+	}
+	return 0, nil, false
+}
